@@ -72,7 +72,7 @@ theorem open_async_eq_sync_trace (n : Nat) (opt : Option Nat) (o : OpenScript)
   · simp only [ho, Bool.not_true, Bool.false_eq_true, if_false] at h ⊢
     cases hb : (send opt (oneFrame n TAG_CLEAR)
         (send opt (oneFrame n TAG_FORCE_FAN)
-          { tx := List.replicate n ⟨0, 0⟩, rx := List.replicate n ⟨0, 0⟩ } o.forceFan).2.1 o.clearSync).1 with
+          { tx := List.replicate n ⟨0, 0⟩, rx := List.replicate n ⟨0, 0⟩, enable := List.replicate n true } o.forceFan).2.1 o.clearSync).1 with
     | ok => rfl
     | err e =>
       simp only [hb] at h ⊢
